@@ -402,3 +402,32 @@ def describe_path(p):
 
 def where(body, line=None):
     return mirutil.where(body, line=line)
+
+
+def callee_closure(facts, roots, crate=None):
+    """paths of all bodies reachable from the bodies named in `roots` through resolved call terminators and closure
+    construction (the closures defined inside a reached body are reached); restricted to `crate` when given"""
+    seen = {}
+    work = [facts.body(r) if isinstance(r, str) else r for r in roots]
+    work = [b for b in work if b is not None]
+    clos = {}
+    for b in facts.bodies.values() if isinstance(facts.bodies, dict) else facts.bodies:
+        if b['kind'] == 'Closure':
+            clos.setdefault(b['path'].split('::{closure')[0], []).append(b)
+    while work:
+        b = work.pop()
+        if b['path'] in seen:
+            continue
+        seen[b['path']] = b
+        for c in clos.get(b['path'].split('::{closure')[0], []):
+            work.append(c)
+        for blk in b['blocks']:
+            t = blk['t']
+            if t['k'] != 'call' or not t.get('callee'):
+                continue
+            cal = t['callee']
+            res = cal.get('res') or {}
+            tgt = facts.by_hash.get(res.get('hash')) or facts.by_hash.get(cal.get('hash'))
+            if tgt is not None and 'blocks' in tgt:
+                work.append(tgt)
+    return {p for p, b in seen.items() if crate is None or b.get('crate') == crate}
